@@ -194,7 +194,8 @@ def fam_case(case, api):
     res = {"id": case["id"], "out": outcome_record(out), "lens": line_lengths(src), "vk": vk, "srclen": len(src)}
     if fam["kind"] == "lt":
         res["lens2"] = res["lens"]
-        res["lens"] = [len(x) for x in re.split("\r\n|[\n\r\u2028\u2029]", src)]
+        # every ES line terminator breaks a line; the CR of a CR LF pair belongs to the line it ends (as in line_lengths)
+        res["lens"] = [len(x) for x in re.split("\n|\r(?!\n)|\u2028|\u2029", src)]
     return res
 
 
